@@ -142,12 +142,41 @@ def mentions(t):
 
 
 # ------------------------------------------------------------------ cases
+QUAL_NAMES = ["rt", "ty", "rt0", "ty0"]     # package names / qualifiers of the original and replacement packages
+
+
+def pnames(rng, n):
+    """parameter names; some are spelled like an import qualifier of the file"""
+    out = []
+    for k in range(n):
+        free = [q for q in QUAL_NAMES if q not in out]
+        out.append(rng.choice(free) if free and rng.random() < 0.22 else "a%d" % k)
+    return out
+
+
+def gen_iface(rng, name, nmeth, must_use=None):
+    methods = []
+    for j in range(nmeth):
+        n = rng.randint(0, 4)
+        ps = [(nm, gen_type(rng)) for nm in pnames(rng, n)]
+        va = bool(ps) and rng.random() < 0.3
+        if va:
+            ps[-1] = (ps[-1][0], ("slice", gen_type(rng, 1, 0.8)))
+        rs = [("", gen_type(rng)) for _ in range(rng.randint(0, 3))]
+        methods.append({"name": "M%d" % j, "params": ps, "variadic": va, "results": rs})
+    if must_use is not None:
+        m = methods[0]
+        m["params"].insert(0, ("k%d" % len(m["params"]), named(*must_use)))
+        m["results"].append(("", named(*must_use)))
+    return {"name": name, "methods": methods}
+
+
 def gen_case(rng):
     ifaces = []
     for i in range(rng.choice([1, 2, 2, 3])):
         methods = []
         for j in range(rng.choice([1, 2, 2, 3])):
-            ps = [("a%d" % k, gen_type(rng)) for k in range(rng.randint(0, 4))]
+            ps = [(nm, gen_type(rng)) for nm in pnames(rng, rng.randint(0, 4))]
             va = bool(ps) and rng.random() < 0.3
             if va:
                 ps[-1] = (ps[-1][0], ("slice", gen_type(rng, 1, 0.8)))
@@ -176,7 +205,19 @@ def gen_case(rng):
             tgt = rng.choice([t for t in TARGETS if t != key])
             put(cfg, slot, key, tgt)
             placed += 1
-    return {"ifaces": ifaces, "cfg": cfg}
+    case = {"ifaces": ifaces, "cfg": cfg, "others": {}, "recursive": False}
+    if rng.random() < 0.3:
+        # a sub-package listed explicitly and an unrelated sibling; the same source package `ty` at
+        # the top level and on (the possibly recursive) package src with different type names
+        k1, k2 = rng.sample([("ty", "K"), ("ty", "K2"), ("ty", "KA"), ("ty", "KI")], 2)
+        for lvl, k in (("file", k1), ("pkg", k2)):
+            if not (cfg[lvl] or {}).get(k):
+                put(cfg, (lvl,), k, rng.choice([t for t in TARGETS if t != k and t[0] != "ty"]))
+        (cfg["file"] or {}).pop(k2, None)
+        case["recursive"] = rng.random() < 0.7
+        case["others"] = {"src/sub": [gen_iface(rng, "S0", rng.choice([1, 2]), k2 if rng.random() < 0.7 else None)],
+                          "oth": [gen_iface(rng, "O0", rng.choice([1, 2]), k2)]}
+    return case
 
 
 def put(cfg, slot, key, tgt):
@@ -202,12 +243,14 @@ def rt_yaml(rt):
 
 def config_yaml(case, base, template, with_rt, outdir):
     cfg = case["cfg"]
-    d = {"template": template, "dir": outdir, "filename": "mocks.go", "pkgname": "mocks", "all": True, "force-file-write": True}
+    d = {"template": template, "dir": outdir + "/{{.SrcPackageName}}", "filename": "mocks.go", "pkgname": "mocks", "all": True, "force-file-write": True}
     if template.startswith("file://"):
         d["require-template-schema-exists"] = False
     if with_rt and cfg["file"]:
         d["replace-type"] = rt_yaml(cfg["file"])
     pk = {"config": {}}
+    if case.get("recursive"):
+        pk["config"]["recursive"] = True
     if with_rt and cfg["pkg"]:
         pk["config"]["replace-type"] = rt_yaml(cfg["pkg"])
     if cfg["ifaces"]:
@@ -227,6 +270,8 @@ def config_yaml(case, base, template, with_rt, outdir):
                     e["configs"].append(x)
             pk["interfaces"][n] = e
     d["packages"] = {MOD + "/src": pk}
+    for rel in case.get("others", {}):
+        d["packages"][MOD + "/" + rel] = {"config": {}}
     return yaml.safe_dump(d, sort_keys=False)
 
 
@@ -255,7 +300,8 @@ def effective(chain):
     return rt
 
 
-def source_file(case):
+def source_file(case, rel="src"):
+    case = {"ifaces": case["ifaces"] if rel == "src" else case["others"][rel]}
     used = set()
     for it in case["ifaces"]:
         for m in it["methods"]:
@@ -270,7 +316,7 @@ def source_file(case):
             rs = [go_src(t) for _, t in m["results"]]
             body += "\t%s(%s)%s\n" % (m["name"], ps, "" if not rs else (" " + rs[0] if len(rs) == 1 and not rs[0].startswith("func") else " (%s)" % ", ".join(rs)))
         body += "}\n\n"
-    return "package src\n\n" + ("import (\n%s)\n\n" % imports if imports else "") + body
+    return "package %s\n\n" % rel.split("/")[-1] + ("import (\n%s)\n\n" % imports if imports else "") + body
 
 
 def make_fixture(ctx):
@@ -309,6 +355,9 @@ def run_case(ctx, base, case, idx, mockery=None):
     shutil.copytree(base / "m", d)
     (d / "src").mkdir()
     (d / "src" / "src.go").write_text(source_file(case))
+    for rel in case.get("others", {}):
+        (d / rel).mkdir(parents=True, exist_ok=True)
+        (d / rel / "x.go").write_text(source_file(case, rel))
     exe = mockery or ctx.bins["mockery"]
     env = go_env({"GOFLAGS": "-mod=mod"})
     for k in list(env):
@@ -323,9 +372,14 @@ def run_case(ctx, base, case, idx, mockery=None):
         p = run([exe, "--config", str(cfgp), "--log-level=error"], cwd=d, env=env, timeout=600)
         err = p.stderr.decode(errors="replace")
         obs[tag] = {"rc": p.returncode, "stderr": err[-500:], "panic": "panic:" in err or "goroutine " in err}
-        f = d / outdir / "mocks.go"
+        f = d / outdir / "src" / "mocks.go"
         if p.returncode == 0 and f.exists():
             obs[tag]["text"] = f.read_text(errors="replace")
+        obs[tag]["others"] = {}
+        for rel in case.get("others", {}):
+            g = d / outdir / rel.split("/")[-1] / "mocks.go"
+            if p.returncode == 0 and g.exists():
+                obs[tag]["others"][rel] = g.read_text(errors="replace")
     shutil.rmtree(d / "outp", ignore_errors=True)
     shutil.rmtree(d / "outq", ignore_errors=True)
     if obs["testify"]["rc"] == 0:
@@ -344,6 +398,61 @@ def normalise(s, imports):
     return re.sub(r"\b([A-Za-z_]\w*)\.([A-Za-z_]\w*)", rep, s)
 
 
+def judge_file(label, mocks, A, Bq):
+    """One output file.  mocks = [(interface, [acceptable effective replace-type maps])]."""
+    errs = []
+    if [i["name"] for i in A["ifaces"]] != [it["name"] for it, _ in mocks] or len(Bq["ifaces"]) != len(mocks):
+        return [("shape", "%s: interfaces rendered %r, expected %r" % (label, [i["name"] for i in A["ifaces"]], [it["name"] for it, _ in mocks]))]
+    referenced = set()
+    for (it, cands), ia, ib in zip(mocks, A["ifaces"], Bq["ifaces"]):
+        ms = sorted(it["methods"], key=lambda m: m["name"])
+        if [m[0] for m in ia["methods"]] != [m["name"] for m in ms]:
+            errs.append(("shape", "%s %s: methods %r" % (label, it["name"], [m[0] for m in ia["methods"]])))
+            continue
+        for m, (_, pa, ra), (_, pb, rb) in zip(ms, ia["methods"], ib["methods"]):
+            for kind, src, got, basev in (("parameter", m["params"], pa, pb), ("result", m["results"], ra, rb)):
+                if len(got) != len(src) or len(basev) != len(src):
+                    errs.append(("shape", "%s %s.%s: %d %ss rendered, %d declared" % (label, it["name"], m["name"], len(got), kind, len(src))))
+                    continue
+                for pos, ((_, t), g, b0) in enumerate(zip(src, got, basev)):
+                    gn, bn = normalise(g, A["imports"]), normalise(b0, Bq["imports"])
+                    referenced |= set(re.findall(r"\{([^}]*)\}\.", gn))
+                    key = (t[1], t[2]) if t[0] == "named" else None
+                    wants = []
+                    for rt in cands:
+                        w = "{%s/%s}.%s" % ((MOD,) + rt[key]) if key in rt else bn
+                        if w not in wants:
+                            wants.append(w)
+                    if gn in wants:
+                        continue
+                    if all(key in rt for rt in cands):
+                        errs.append(("not-replaced", "%s: %s (%s) %s.%s %s %d of type %s: rendered %s, expected %s" % (
+                            label, it["name"], ia["struct"], it["name"], m["name"], kind, pos, go_src(t), g, " or ".join(wants))))
+                    else:
+                        errs.append(("changed", "%s: %s.%s %s %d of type %s has no entry in the chain of this mock but is rendered %s with the setting and %s without" % (
+                            label, it["name"], m["name"], kind, pos, go_src(t), g, b0)))
+    imp = {p for p, q in A["imports"]}
+    if imp != referenced:
+        errs.append(("imports", "%s: imports %r, packages referenced by the rendered signatures %r" % (label, sorted(imp), sorted(referenced))))
+    if len({q for p, q in A["imports"]}) != len(A["imports"]):
+        errs.append(("imports", "%s: duplicate qualifier in %r" % (label, A["imports"])))
+    return errs
+
+
+def other_mocks(case, rel):
+    """Interfaces of the packages that carry no setting of their own.  The sibling sees the top
+    level only.  The explicitly configured sub-package of a recursive src also receives src's
+    package-level entries; the property does not rank that level (C08), so both ranks are accepted."""
+    cfg = case["cfg"]
+    top = cfg["file"] or {}
+    cands = [dict(top)]
+    if rel == "src/sub" and case.get("recursive") and cfg["pkg"]:
+        below = dict(cfg["pkg"]); below.update(top)
+        above = dict(top); above.update(cfg["pkg"])
+        cands = [below, above]
+    return [(it, cands) for it in case["others"][rel]]
+
+
 def oracle(case, obs):
     errs = []
     for tag in ("with", "without", "testify"):
@@ -351,39 +460,13 @@ def oracle(case, obs):
             return [("crash", "%s run crashed: %s" % (tag, obs[tag]["stderr"][-200:]))]
         if obs[tag]["rc"] != 0 or "text" not in obs[tag] and tag != "testify":
             return [("run", "%s run failed (rc=%d): %s" % (tag, obs[tag]["rc"], obs[tag]["stderr"][-300:]))]
-    A, Bq = parse_probe(obs["with"]["text"]), parse_probe(obs["without"]["text"])
-    mocks = mocks_of(case)
-    if [i["name"] for i in A["ifaces"]] != [it["name"] for it, _ in mocks] or len(Bq["ifaces"]) != len(mocks):
-        return [("shape", "interfaces rendered %r, expected %r" % ([i["name"] for i in A["ifaces"]], [it["name"] for it, _ in mocks]))]
-    referenced = set()
-    for (it, chain), ia, ib in zip(mocks, A["ifaces"], Bq["ifaces"]):
-        rt = effective(chain)
-        ms = sorted(it["methods"], key=lambda m: m["name"])
-        if [m[0] for m in ia["methods"]] != [m["name"] for m in ms]:
-            errs.append(("shape", "%s: methods %r" % (it["name"], [m[0] for m in ia["methods"]])))
+    errs += judge_file("src", [(it, [effective(chain)]) for it, chain in mocks_of(case)],
+                       parse_probe(obs["with"]["text"]), parse_probe(obs["without"]["text"]))
+    for rel in case.get("others", {}):
+        if rel not in obs["with"]["others"] or rel not in obs["without"]["others"]:
+            errs.append(("shape", "no output for package %s" % rel))
             continue
-        for m, (_, pa, ra), (_, pb, rb) in zip(ms, ia["methods"], ib["methods"]):
-            for kind, src, got, basev in (("parameter", m["params"], pa, pb), ("result", m["results"], ra, rb)):
-                if len(got) != len(src) or len(basev) != len(src):
-                    errs.append(("shape", "%s.%s: %d %ss rendered, %d declared" % (it["name"], m["name"], len(got), kind, len(src))))
-                    continue
-                for pos, ((_, t), g, b0) in enumerate(zip(src, got, basev)):
-                    gn, bn = normalise(g, A["imports"]), normalise(b0, Bq["imports"])
-                    referenced |= set(re.findall(r"\{([^}]*)\}\.", gn))
-                    if t[0] == "named" and (t[1], t[2]) in rt:
-                        tp, tn = rt[(t[1], t[2])]
-                        want = "{%s/%s}.%s" % (MOD, tp, tn)
-                        if gn != want:
-                            errs.append(("not-replaced", "%s (%s) %s.%s %s %d of type %s: rendered %s, expected %s" % (
-                                it["name"], ia["struct"], it["name"], m["name"], kind, pos, go_src(t), g, want)))
-                    elif gn != bn:
-                        errs.append(("changed", "%s.%s %s %d of type %s is not a key but is rendered %s with the setting and %s without" % (
-                            it["name"], m["name"], kind, pos, go_src(t), g, b0)))
-    imp = {p for p, q in A["imports"]}
-    if imp != referenced:
-        errs.append(("imports", "imports %r, packages referenced by the rendered signatures %r" % (sorted(imp), sorted(referenced))))
-    if len({q for p, q in A["imports"]}) != len(A["imports"]):
-        errs.append(("imports", "duplicate qualifier in %r" % (A["imports"],)))
+        errs += judge_file(rel, other_mocks(case, rel), parse_probe(obs["with"]["others"][rel]), parse_probe(obs["without"]["others"][rel]))
     if obs.get("build", {}).get("rc", 1) != 0 and not case.get("skip_build"):
         errs.append(("build", "testify output with the setting does not build: %s" % obs.get("build", obs["testify"]).get("stderr", "")[-600:]))
     return errs
@@ -408,12 +491,12 @@ def case_term(case, obs):
         coq_bytes(n), coq_list(coq_bytes(x) for x in ps), coq_list(coq_bytes(x) for x in rs)) for n, ps, rs in i["methods"])) for i in A["ifaces"])
     return "{| k_names := %s; k_dst := %s; k_inpkg := false; k_ifaces := %s; k_obs := %s; k_imports := %s |}" % (
         coq_list("(%s, %s)" % (coq_bytes(MOD + "/" + p), coq_bytes(v[0])) for p, v in PKGS.items()),
-        coq_bytes(MOD + "/outp"), coq_list(ifs), ob,
+        coq_bytes(MOD + "/outp/src"), coq_list(ifs), ob,
         coq_list("(%s, %s)" % (coq_bytes(p), coq_bytes(q)) for p, q in A["imports"]))
 
 
 def describe(case, obs=None):
-    d = {"source": source_file(case), "config": yaml.safe_load(config_yaml(case, "@BASE@", "file://@BASE@/probe.templ", True, "outp")),
+    d = {"source": source_file(case), "other_sources": {rel: source_file(case, rel) for rel in case.get("others", {})}, "config": yaml.safe_load(config_yaml(case, "@BASE@", "file://@BASE@/probe.templ", True, "outp")),
          "packages": {MOD + "/" + p: v[2] for p, v in PKGS.items()}}
     if obs is not None:
         d["observed"] = {k: {kk: vv for kk, vv in v.items() if kk != "panic"} for k, v in obs.items()}
@@ -425,6 +508,7 @@ def dump_case(case):
         return None if c is None else [[list(k), list(v)] for k, v in c.items()]
     cfg = case["cfg"]
     return {"ifaces": case["ifaces"], "skip_build": case.get("skip_build", False),
+            "others": case.get("others", {}), "recursive": case.get("recursive", False),
             "cfg": {"file": rt(cfg["file"]), "pkg": rt(cfg["pkg"]),
                     "ifaces": {n: {"config": rt(ic["config"]), "configs": [rt(c) for c in ic["configs"]]} for n, ic in cfg["ifaces"].items()}}}
 
@@ -436,15 +520,19 @@ def load_case(d):
 
     def rt(c):
         return None if c is None else {tuple(k): tuple(v) for k, v in c}
-    ifaces = []
-    for it in d["ifaces"]:
-        ms = []
-        for m in it["methods"]:
-            ms.append({"name": m["name"], "variadic": m["variadic"], "params": [(n, tt(t)) for n, t in m["params"]],
-                       "results": [(n, tt(t)) for n, t in m["results"]]})
-        ifaces.append({"name": it["name"], "methods": ms})
+    def load_ifaces(l):
+        out = []
+        for it in l:
+            ms = []
+            for m in it["methods"]:
+                ms.append({"name": m["name"], "variadic": m["variadic"], "params": [(n, tt(t)) for n, t in m["params"]],
+                           "results": [(n, tt(t)) for n, t in m["results"]]})
+            out.append({"name": it["name"], "methods": ms})
+        return out
+    ifaces = load_ifaces(d["ifaces"])
     cfg = d["cfg"]
     return {"ifaces": ifaces, "skip_build": d.get("skip_build", False),
+            "others": {rel: load_ifaces(l) for rel, l in d.get("others", {}).items()}, "recursive": d.get("recursive", False),
             "cfg": {"file": rt(cfg["file"]), "pkg": rt(cfg["pkg"]),
                     "ifaces": {n: {"config": rt(ic["config"]), "configs": [rt(c) for c in ic["configs"]]} for n, ic in cfg["ifaces"].items()}}}
 
@@ -465,6 +553,10 @@ def shrink(ctx, base, case, fails):
                     yield ("param", i, j, k)
                 for k in range(len(m["results"])):
                     yield ("result", i, j, k)
+        for rel in list(c.get("others", {})):
+            yield ("other", rel)
+        if c.get("recursive"):
+            yield ("norec",)
         cfg = c["cfg"]
         for lvl in ("file", "pkg"):
             for key in list(cfg[lvl] or {}):
@@ -492,6 +584,10 @@ def shrink(ctx, base, case, fails):
             del m["params"][cand[3]]
         elif k == "result":
             del c["ifaces"][cand[1]]["methods"][cand[2]]["results"][cand[3]]
+        elif k == "other":
+            del c["others"][cand[1]]
+        elif k == "norec":
+            c["recursive"] = False
         elif k == "rt":
             del c["cfg"][cand[1]][cand[2]]
         elif k == "rti":
@@ -548,10 +644,28 @@ def hand_cases():
     cfg = {"file": None, "pkg": None, "ifaces": {}}
     put(cfg, ("pkg",), ("", ""), ("rt", "R"))
     out.append({"ifaces": one([("a0", ("basic", "int")), ("a1", ("ptr", K)), ("a2", ("slice", K2))], [("", K)], True), "cfg": cfg})
+    # replace-type leak shape: ty.K at the top, ty.K2 on the recursive package src, its sub-package listed
+    # explicitly, an unrelated sibling whose interface uses ty.K2 (must render as without the setting)
+    cfg = {"file": None, "pkg": None, "ifaces": {}}
+    put(cfg, ("file",), ("ty", "K"), ("rt", "R"))
+    put(cfg, ("pkg",), ("ty", "K2"), ("alt/rt", "S"))
+    user = {"name": "O0", "methods": [{"name": "M0", "params": [("a0", K), ("a1", K2)], "variadic": False, "results": [("", K2)]}]}
+    out.append({"ifaces": one([("a0", K), ("a1", K2)], [("", K2)]), "cfg": cfg, "recursive": True,
+                "others": {"src/sub": [dict(user, name="S0")], "oth": [user]}})
+    # a parameter spelled like the replacement package's qualifier, in the first method that brings the
+    # replacement package in, and in a later one; also like the original package's
+    cfg = {"file": None, "pkg": None, "ifaces": {}}
+    put(cfg, ("pkg",), ("ty", "K"), ("rt", "R"))
+    out.append({"ifaces": [{"name": "I0", "methods": [
+        {"name": "M0", "params": [("rt", ("basic", "string")), ("in", K)], "variadic": False, "results": [("", K), ("", named("", "error"))]},
+        {"name": "M1", "params": [("ty", K2), ("rt", K)], "variadic": False, "results": []}]}], "cfg": cfg})
     # target inside the original package; variadic of the key type
     cfg = {"file": None, "pkg": None, "ifaces": {}}
     put(cfg, ("file",), ("ty", "K"), ("ty", "K2"))
     out.append({"ifaces": one([("a0", K), ("a1", ("slice", K))], [("", K)], True), "cfg": cfg})
+    for c in out:
+        c.setdefault("others", {})
+        c.setdefault("recursive", False)
     return out
 
 
